@@ -7,6 +7,9 @@ open Seata.TM Seata.Driver
 def parseReply (t : String) : Option Reply :=
   match t with
   | "ok" => some .ok | "failed" => some .failed | "transport" => some .transport
+  -- a reply the request cannot be answered with (a begin acknowledged without an xid, a body of another
+  -- message type) is no acknowledgement
+  | "emptyxid" => some .failed | "wrongtype" => some .failed
   | _ =>
     if t.startsWith "w" then
       match (sdrop t 1).splitOn "." with
